@@ -8,7 +8,7 @@ to one line of a Lean `do` block in the `Except String` monad (`raise X` -> `thr
   scope.py  _LeafDefn.get_current_bounds, _LeafDefn.get_mean_current_value (specialised to warn=False),
             the per-scope body of the first loop of _LeafDefn.assign_all (+ the statements before the loop it reads),
             ParameterController._updateIntermediateValues, update_intermediate_values, assign_all,
-            updates_postponed (a @contextmanager generator: the statements run on entry, on a normal exit and when an
+            update_from_calculator, updates_postponed (a @contextmanager generator: the statements run on entry, on a normal exit and when an
             exception leaves the block become three functions)
   parameter_controller.py  the tail of set_param_rule: everything after the scope keywords have been parsed, i.e. the
             argument checks and the argument list of the final self.assign_all(...) call
@@ -226,6 +226,8 @@ class Fn:
         else:
             if f == "isinstance" and len(n.args) == 2 and u(n.args[1]) == "_LeafDefn":
                 return "B", f"(Prim.isLeaf g {self.ex(n.args[0])[1]})"
+            if u(n) == "list(self.defn_for.values())":
+                return "LN", "(Prim.defns g)"  # one entry per definition, in the order of self.defns
         raise Unsupported(f"call `{u(n)}`")
 
     # ------------------------------------------------------------------ statements
@@ -314,6 +316,12 @@ class Fn:
                 self.emit(ind, f"let ({', '.join(tmps)}) := {e}")
                 for el, ty, tm in zip(tgt.elts, tys, tmps):
                     self.store(ind, el, ty, tm)
+                return
+            if (isinstance(s.value, ast.List) and not s.value.elts and isinstance(tgt, ast.Name)
+                    and tgt.id not in self.declared and self.var_types.get(tgt.id) == "LN"):
+                self.types[tgt.id] = "LN"
+                self.declared.add(tgt.id)
+                self.emit(ind, f"let mut {lname(tgt.id)} : List Nat := []")
                 return
             if t == "NONE":
                 if isinstance(tgt, ast.Name) and tgt.id not in self.declared:
@@ -423,6 +431,18 @@ class Fn:
             else:
                 e = "none"
             self.emit(ind, f"self := (← update_intermediate_values g self {e})")
+            return
+        if (isinstance(c.func, ast.Attribute) and c.func.attr == "append" and isinstance(c.func.value, ast.Name)
+                and self.tof(c.func.value.id) == "LN" and c.func.value.id in self.declared and len(c.args) == 1
+                and not c.keywords):
+            t, e = self.ex(c.args[0])
+            if t != "N":
+                raise Unsupported(f"`{u(c)}`")
+            self.emit(ind, f"{lname(c.func.value.id)} := {lname(c.func.value.id)} ++ [{e}]")
+            return
+        if (isinstance(c.func, ast.Attribute) and c.func.attr == "update_from_calculator" and isinstance(c.func.value, ast.Name)
+                and self.tof(c.func.value.id) == "N" and len(c.args) == 1 and u(c.args[0]) == "calc" and not c.keywords):
+            self.emit(ind, f"self := Prim.defnFromCalc self {lname(c.func.value.id)} calc")
             return
         if (isinstance(c.func, ast.Attribute) and c.func.attr == "update" and isinstance(c.func.value, ast.Name)
                 and self.tof(c.func.value.id) == "N" and not c.args and not c.keywords):
@@ -640,6 +660,14 @@ def translate(src_root: Path):
         section("ParameterController.assign_all (`defn = self.defn_for[par_name]` is the parameter `defn`; `*args, **kw` is the value `args`)",
                 "def assign_all (g : Graph V) (self : St V) (defn : Nat) (args : V) : Except String (St V) := do",
                 Fn("assign_all", ["defn", "args"], {"defn": "N", "args": "V"}, {}, ctl=True, result="self"), _strip_doc(f.body))
+    f = _find(st, "ParameterController", "update_from_calculator")
+    if f is None or _argnames(f) != ["self", "calc"]:
+        problems.append("ParameterController.update_from_calculator(self, calc) not found")
+    else:
+        section("ParameterController.update_from_calculator (`calc` is the value the calculator holds for each definition)",
+                "def update_from_calculator (g : Graph V) (self : St V) (calc : Nat → V) : Except String (St V) := do",
+                Fn("update_from_calculator", ["calc"], {"calc": "CALC"}, {"changed": "LN"}, ctl=True, result="self"),
+                _strip_doc(f.body))
     f = _find(st, "ParameterController", "updates_postponed")
     if f is None or _argnames(f) != ["self"] or [u(d) for d in f.decorator_list] != ["contextmanager"]:
         problems.append("@contextmanager ParameterController.updates_postponed(self) not found")
